@@ -1,16 +1,19 @@
 #!/usr/bin/env python3
-"""usage: tools/benign_recheck.py [--all-props] [variant ...]
+"""usage: tools/benign_recheck.py [--all-props | --props=C03,C06] [variant ...]
+(--props runs just those checks over the variants and leaves meta.json alone)
 Re-runs, for each stored benign variant, the checks that raised an alarm last time (or all 20 with --all-props),
 updates benign/<v>/meta.json and prints what still fires."""
 import sys,os,subprocess,json,shutil,tempfile,concurrent.futures as cf
 args=[a for a in sys.argv[1:] if not a.startswith('--')]
 allp='--all-props' in sys.argv
+only=[a.split('=',1)[1].split(',') for a in sys.argv[1:] if a.startswith('--props=')]
+only=only[0] if only else None
 subprocess.check_call('cd /verif && . ./env.sh && cd checker && go build -o ../bin/wtfcheck ./cmd/wtfcheck',shell=True)
 PROPS=[f'C{i:02d}' for i in range(1,21)]
 vs=args or sorted(os.listdir('/verif/benign'))
 def run(v):
     d=f'/verif/benign/{v}'; meta=json.load(open(d+'/meta.json'))
-    props=PROPS if allp else sorted(meta.get('alarms',{}).keys())
+    props=only or (PROPS if allp else sorted(meta.get('alarms',{}).keys()))
     if not props: return v,{},meta
     T=tempfile.mkdtemp(prefix='benign.')
     try:
@@ -29,7 +32,7 @@ def run(v):
         shutil.rmtree(T,ignore_errors=True)
 with cf.ThreadPoolExecutor(8) as ex:
     for v,out,meta in ex.map(run,vs):
-        if allp or out or meta.get('alarms'):
+        if not only and (allp or out or meta.get('alarms')):
             if not allp:
                 # keep alarms of props not re-run
                 pass
